@@ -5,6 +5,7 @@ import (
 	"errors"
 	"fmt"
 	"io"
+	"math"
 	"sync"
 	"sync/atomic"
 	"time"
@@ -385,6 +386,20 @@ func (g *GoBackNConn) sendPacket(ctx context.Context, msg Message,
 	b, err := msg.Serialize()
 	if err != nil {
 		return fmt.Errorf("serialize error: %s", err)
+	}
+
+	// The keepalive timers are served by the send loop, so they cannot
+	// fire while that loop sits in a write that the transport does not
+	// accept (a transport with backpressure blocks as soon as the peer has
+	// stopped reading). With keepalive enabled, a write that stays blocked
+	// for the ping time plus the pong time is therefore treated like a
+	// missing pong: the connection's context is cancelled, which makes the
+	// blocked write return and the connection close.
+	pingTime := g.timeoutManager.GetPingTime()
+	pongTime := g.timeoutManager.GetPongTime()
+	if pingTime != math.MaxInt64 && pongTime != math.MaxInt64 {
+		watchdog := time.AfterFunc(pingTime+pongTime, g.cancel)
+		defer watchdog.Stop()
 	}
 
 	err = g.cfg.sendToStream(ctx, b)
